@@ -182,6 +182,46 @@ def run(ctx):
                     t["assumptions"] = None
     rep.lap("chunk_names_source")
 
+    # ---- more than a hundred chunks, every Widrow-Hoff learner (after seeded change C04-K: one sort site compared
+    # zero-padded strings, right up to chunk 99) ------------------------------------------------
+    # the same events learned from 102..105 chunks of two events and from one chunk must give the same table, bit by bit
+    # (the same updates in the same order: C04_chunks_concat, C04_numeric_sort_restores_order); this is a search for a
+    # failing input among the learners' own results, not a model comparison (exact rationals over 200 events round
+    # differently from doubles by more than the comparison of C08 allows)
+    import whlib
+    from props.c01 import run_jobs
+    hjobs, hdesc = [], []
+    for fl in ("b2r", "r2b", "r2r"):
+        cues = ["c%d" % i for i in range(4)]
+        outs = ["o%d" % i for i in range(3)]
+        n_ev = rng.randint(204, 210)
+        events = whlib.gen_wh_events(rng, n_ev, cues, outs, dups=False, max_c=3, max_o=2)
+        cv = whlib.gen_table(rng, cues, 2, prefix="k") if fl in ("r2r", "r2b") else None
+        ov = whlib.gen_table(rng, outs, 2, prefix="d") if fl in ("r2r", "b2r") else None
+        for per in (2, 10000000):
+            hjobs.append({"flavour": fl, "impl": "openmp", "eta": rwlib.nd(Fraction(1, 16)), "cue_vectors": cv,
+                          "outcome_vectors": ov, "pol": 2, "parts": [events], "n_jobs": 2, "n_outcomes_per_job": 2,
+                          "per": per})
+        hdesc.append({"flavour": fl, "n_events": n_ev, "chunks": -(-n_ev // 2), "events": events})
+    hres = run_jobs(sc, "wh_worker", hjobs)
+    for k, d in enumerate(hdesc):
+        a, b = hres[2 * k], hres[2 * k + 1]
+        rep.case({"hundred_chunks": d["flavour"], "n": d["n_events"]}, nontrivial=True)
+        rep.hist("chunks", d["chunks"])
+        if a.get("status") != "ok" or b.get("status") != "ok":
+            rep.violation("Widrow-Hoff learner %s failed on %d chunks" % (d["flavour"], d["chunks"]),
+                          {"correspondence": "X-chunk/order", "case": d, "impl": [str(a)[:400], str(b)[:400]]})
+            break
+        ta, tb = whlib.impl_table(a["value"]), whlib.impl_table(b["value"])
+        if ta != tb:
+            diff = [(k2, ta.get(k2), tb.get(k2)) for k2 in sorted(set(ta) | set(tb)) if ta.get(k2) != tb.get(k2)][:5]
+            rep.violation("wh (%s): the weights learned from %d chunks of two events differ from the weights learned "
+                          "from one chunk" % (d["flavour"], d["chunks"]),
+                          {"correspondence": "X-chunk/order", "theorems": ["C04_chunks_concat",
+                           "C04_numeric_sort_restores_order"], "case": d, "first_differences": str(diff)})
+            break
+    rep.lap("hundred_chunks")
+
     # ---- weights do not depend on the chunk size ------------------------------------------
     sets = []
     for k in range(8 if ctx.thorough else 5):
